@@ -210,6 +210,21 @@ __CPROVER_ensures((N_BOTH && TF_HELLO_OK(P->rxlen) && OLD(EP->useraio) != NULL) 
 __CPROVER_ensures((N_BOTH && TF_HELLO_OK(P->rxlen) && OLD(EP->useraio) != NULL && OLD(g_waitq.n) == 0) ==> (!g_waitq.has_p && OLD(EP->useraio)->a_outputs[0] == (void *) P->npipe && P->rcvmax == EP->rcvmax))
 ;
 
+/* ---- start of the negotiation: our own connection header ---------------- */
+/* we announce 00 'S' 'P' 00 <our protocol id, big endian> 00 00 -- exactly 8 bytes -- and the pipe waits on negopipes;
+ * no negotiation timeout on this transport: the descriptor comes from the application itself (sockfd.c, documented rationale) */
+static void sfd_tran_pipe_start(sfd_tran_pipe *p, nng_stream *conn, sfd_tran_ep *ep)
+__CPROVER_requires(__CPROVER_is_fresh(p, sizeof(*p)) && __CPROVER_is_fresh(ep, sizeof(*ep)))
+__CPROVER_requires(g_the_pipe == (void *) p && g_negoq_addr == &ep->negopipes && g_waitq_addr == &ep->waitpipes && !g_negoq.has_p && !g_waitq.has_p)
+__CPROVER_assigns(p->conn, p->ep, p->proto, __CPROVER_object_upto(&p->txlen[0], sizeof(p->txlen)), p->gottxhead, p->gotrxhead, p->wanttxhead, p->wantrxhead, TF_IOV_OF(p->negoaio), p->negoaio.a_timeout, p->negoaio.a_use_expire, g_negoq, TF_IO_GHOSTS)
+__CPROVER_ensures(TF_HELLO_OK(p->txlen) && TF_BE16(&p->txlen[4]) == ep->proto && p->proto == ep->proto)
+__CPROVER_ensures(p->gottxhead == 0 && p->gotrxhead == 0 && p->wanttxhead == 8 && p->wantrxhead == 8)
+__CPROVER_ensures(p->negoaio.a_nio == 1 && p->negoaio.a_iov[0].iov_buf == (void *) &p->txlen[0] && p->negoaio.a_iov[0].iov_len == 8)
+__CPROVER_ensures(p->conn == conn && p->ep == ep && g_negoq.has_p && g_negoq.n == OLD(g_negoq.n) + 1 && !g_waitq.has_p)
+__CPROVER_ensures(g_send_calls == OLD(g_send_calls) + 1 && g_recv_calls == OLD(g_recv_calls) && g_io_aio == &p->negoaio && g_io_conn == conn)
+__CPROVER_ensures(p->negoaio.a_timeout == NNG_DURATION_INFINITE && !p->negoaio.a_use_expire)
+;
+
 static uint16_t sfd_tran_pipe_peer(void *arg)
 __CPROVER_requires(__CPROVER_is_fresh(arg, sizeof(sfd_tran_pipe)))
 __CPROVER_assigns()
